@@ -181,7 +181,9 @@ SHIM2_C = r"""
 #include <linux/ethtool.h>
 /* Scripted OS answers for the C17 correspondence.  Active only while the script file exists in $C17_SHIM_DIR:
      ifaddrs.txt   one entry per line: <name hex> <flags> <addr> <netmask> <ifu>   (each sockaddr: '-' or the hex of its bytes;
-                   every sockaddr is malloc'ed with EXACTLY that many bytes, so that a sanitizer build sees any over-read)
+                   every sockaddr is malloc'ed with exactly that many bytes, but never fewer than sizeof(struct sockaddr) —
+                   the size every consumer, ASan's own getifaddrs interceptor included, may assume — so that a sanitizer
+                   build sees any read past the object)
      ioctl.txt     "<ret> <errno> <mtu> <flags> <speed_lo> <speed_hi> <duplex>" for SIOCGIFMTU / SIOCGIFFLAGS / SIOCETHTOOL;
                    the 16 raw bytes of ifr_name the call carried are appended (hex) to ioctl.out
      sysinfo.txt   seven decimal numbers: totalram freeram bufferram sharedram totalswap freeswap mem_unit            */
@@ -203,8 +205,11 @@ static void free_ours(struct ifaddrs *p) {
     while (p) { struct ifaddrs *n = p->ifa_next; free(p->ifa_name); free(p->ifa_addr); free(p->ifa_netmask); free(p->ifa_broadaddr); free(p); p = n; }
 }
 static struct sockaddr *sock_of(const char *tok) {
-    size_t n; if (tok[0] == '-') return NULL;
-    return (struct sockaddr *)unhex(tok, &n);
+    size_t n; unsigned char *b, *p; if (tok[0] == '-') return NULL;
+    b = unhex(tok, &n);
+    if (n >= sizeof(struct sockaddr)) return (struct sockaddr *)b;
+    p = calloc(1, sizeof(struct sockaddr)); memcpy(p, b, n); free(b);
+    return (struct sockaddr *)p;
 }
 int getifaddrs(struct ifaddrs **out) {
     static int (*real)(struct ifaddrs **);
